@@ -1,0 +1,26 @@
+//go:build verif
+
+package fasthttp
+
+// C41, address rotation in TCPDialer.dial. Checked by /verif/gocv (comment-only; compiled to nothing).
+//
+// With n resolved addresses and the rotation start idx handed out by getTCPAddrs, the k-th attempt (k = 0..n-1) uses
+// address (idx mod n + k) mod n -- so a failing host sees each of its addresses exactly once before dial gives up.
+// Trusted: a host resolves to fewer than 2^31 addresses. The concurrency bound (channel semaphore) and the timeout
+// are not decided here.
+//@ func TCPDialer.dial results c err
+//@   property C41
+//@   mode skeleton
+//@   safety C41
+//@   ghost start int = -1
+//@   ghost attempts int = 0
+//@   on call TCPDialer.getTCPAddrs -> as, i, e:
+//@     effect start = i
+//@     ensures i >= 0 && len(as) < 2147483648
+//@   on index addrs(k):
+//@     requires[rotation] len(addrs) > 0 && k == (start % len(addrs) + attempts) % len(addrs)
+//@   on call TCPDialer.tryDial#2 -> cn, e:
+//@     effect attempts = attempts + 1
+//@   end
+//@   loop 1:
+//@     invariant[attempts-so-far] attempts == _i
